@@ -213,11 +213,23 @@ impl<'a> Planner<'a> {
                 .iter()
                 .all(|input_id| resolved_values.contains(*input_id));
 
+            // An operator whose subgraphs capture a value that is not a node
+            // of this graph depends on a value from an enclosing scope. Those
+            // values are not available when a pruned plan is run, and
+            // `operator_dependencies` only reports captures that resolve to a
+            // node of this graph.
+            let has_unresolved_captures = op_node
+                .capture_names()
+                .any(|name| self.graph.get_node_id(name).is_none());
+
             // Prune op if:
             //
             // - The output varies on each run (`Random*`)
             // - We are missing a required input
-            let prune_op = !op_node.operator().is_deterministic() || !all_inputs_available;
+            // - A subgraph captures a value from outside this graph
+            let prune_op = !op_node.operator().is_deterministic()
+                || !all_inputs_available
+                || has_unresolved_captures;
 
             if prune_op {
                 for input_id in all_inputs {
